@@ -118,14 +118,26 @@ def gen_cases(ctx):
         out.append({"k": "z2s", "seed": rng.randrange(10**9)})
     for _ in range(nn):
         out.append({"k": "near", "seed": rng.randrange(10**9)})
+    for _ in range(12 if ctx.quick else 150):
+        out.append({"k": "clip", "seed": rng.randrange(10**9)})
     advs = ["RK4", "RK4", "RK2", "EF", "RK4", "RK2"]
     for n in range(ns):
         out.append({"k": "sim", "seed": rng.randrange(10**9), "adv": advs[n % len(advs)], "dir": n % 8,
                     "speed": [1.8, 0.8, 2.6, 0.3, 1.3, 0.6][(n // 2) % 6], "diffusion": (n % 5 == 4)})
+    # state positions in float32 (what a warm start from an f4 output file gives) on grids with more than 33
+    # columns / rows, fast flow towards the far boundary
+    for n in range(6 if ctx.quick else 40):
+        out.append({"k": "sim", "seed": rng.randrange(10**9), "adv": ["RK4", "RK2"][n % 2], "dir": [0, 2, 4][n % 3],
+                    "speed": [1.8, 0.8, 2.6, 1.3][n % 4], "diffusion": False, "f32": True, "big": ["x", "y", "xy"][n % 3]})
+    # directed: integer positions, flow of exactly 1 or 2 cells per step: stage positions land exactly on
+    # xmin / xmax / ymin / ymax
+    for n in range(8 if ctx.quick else 48):
+        out.append({"k": "sim", "seed": rng.randrange(10**9), "adv": ["RK4", "RK2", "RK4", "EF"][n % 4], "dir": n % 8,
+                    "speed": [1, 2][(n // 8) % 2] if ctx.quick is False else [1, 2][(n // 4) % 2], "diffusion": False, "exact": True})
     # the same scenarios with the COMPILED kernels under NUMBA_BOUNDSCHECK=1 (subprocess; a few seconds per batch)
     batch = [c for c in out if c["k"] == "sim"]
-    for b in range(0, len(batch), 30):
-        out.append({"k": "boundscheck", "scenarios": batch[b:b + 30]})
+    for b in range(0, len(batch), 40):
+        out.append({"k": "boundscheck", "scenarios": batch[b:b + 40]})
     return out
 
 
@@ -274,6 +286,41 @@ def eval_near(desc):
                   f"nearest sampler on shape {F.shape} at x={x} y={y} k={k}", {"ok": ok, "reads": uniq(tr)})
 
 
+def eval_clip(desc):
+    """the jitted ladim.tracker.clip on positions exactly at, just inside and just outside the limits"""
+    from ladim.tracker import clip
+
+    rng = np.random.default_rng(desc["seed"])
+    if rng.random() < 0.6:      # the tracker's own limits of some sub-rectangle
+        i0, j0 = int(rng.integers(1, 30)), int(rng.integers(1, 30))
+        i1, j1 = i0 + int(rng.integers(3, 40)), j0 + int(rng.integers(3, 40))
+        lim = [float(i0) + 0.01, float(i1 - 1) - 0.01, float(j0) + 0.01, float(j1 - 1) - 0.01]
+    else:
+        a, b = sorted(float(v) for v in rng.uniform(-5, 60, size=2))
+        c, e = sorted(float(v) for v in rng.uniform(-5, 60, size=2))
+        lim = [a, b + 0.5, c, e + 0.5]
+
+    def values(lo, hi, n):
+        special = [lo, hi, np.nextafter(lo, -np.inf), np.nextafter(lo, np.inf), np.nextafter(hi, -np.inf), np.nextafter(hi, np.inf),
+                   lo - 0.01, hi + 0.01, math.floor(lo), math.ceil(hi), lo - 1.0, hi + 1.0, hi + 1e-6, lo - 1e-6, 0.5 * (lo + hi)]
+        return [float(special[rng.integers(len(special))]) if rng.random() < 0.7 else float(rng.uniform(lo - 3, hi + 3)) for _ in range(n)]
+
+    P = 12
+    bx, by = values(lim[0], lim[1], P), values(lim[2], lim[3], P)
+    X, Y = np.array(bx), np.array(by)
+    clip(X, Y, lim[0], lim[1], lim[2], lim[3])
+    ints = [5, 0, 0, 0, 0, 0] + fl(lim[0]) + fl(lim[1]) + fl(lim[2]) + fl(lim[3]) + [P]
+    oracle = None
+    for n in range(P):
+        ints += fl(bx[n]) + fl(by[n]) + fl(float(X[n])) + fl(float(Y[n]))
+        for nm, b, a, lo, hi in (("x", bx[n], float(X[n]), lim[0], lim[1]), ("y", by[n], float(Y[n]), lim[2], lim[3])):
+            # property text: a clipped position lies within the limits and a position within the limits is not moved
+            if oracle is None and (not (lo <= a <= hi) or (lo <= b <= hi and a != b)):
+                oracle = f"clip({nm}={b}, limits {lo}..{hi}) = {a}"
+    return {"ints": ints, "oracle": oracle, "nontrivial": ("clip", desc["seed"]), "kind": "clip",
+            "observed": {"limits": lim, "before": bx[:4], "after": [float(v) for v in X[:4]]}}
+
+
 # ------------------------------------------------------------------------------------ whole simulations
 DIRS = [(1, 0), (-1, 0), (0, 1), (0, -1), (1, 1), (-1, -1), (1, -1), (-1, 1)]
 
@@ -283,6 +330,14 @@ def write_scenario(d, desc):
     rng = np.random.default_rng(desc["seed"])
     imax0, jmax0, N = int(rng.integers(12, 17)), int(rng.integers(10, 15)), int(rng.integers(2, 5))
     dt, dx, nsteps = 600, 1000.0, 4
+    exact = bool(desc.get("exact"))
+    if exact:
+        dt, dx = 512, 512.0            # u = 1 m/s is exactly one cell per step
+    big = desc.get("big", "")
+    if "x" in big:
+        imax0 = int(rng.integers(36, 44))
+    if "y" in big:
+        jmax0 = int(rng.integers(36, 44))
     h = rng.uniform(30, 200, size=(jmax0, imax0))
     if rng.random() < 0.25:
         sub = None
@@ -291,12 +346,16 @@ def write_scenario(d, desc):
         while True:
             i0 = int(rng.integers(1, imax0 - 6)); i1 = int(rng.integers(i0 + 5, imax0))
             j0 = int(rng.integers(1, jmax0 - 6)); j1 = int(rng.integers(j0 + 5, jmax0))
+            if "x" in big:
+                i1 = int(rng.integers(max(i0 + 5, 34), imax0))       # xmax = i1 - 1 >= 33
+            if "y" in big:
+                j1 = int(rng.integers(max(j0 + 5, 34), jmax0))
             if i0 != j0 or rng.random() < 0.2:
                 break
         sub = g = (i0, i1, j0, j1)
     dxs, dys = DIRS[desc["dir"]]
     speed = desc["speed"] * dx / dt       # cells per step -> m/s
-    lev = 1.0 + 0.15 * np.arange(N)[:, None, None]
+    lev = 1.0 + (0.0 if exact else 0.15) * np.arange(N)[:, None, None]
     u = np.stack([dxs * speed * lev * np.ones((N, jmax0, imax0 - 1))] * 2)
     v = np.stack([dys * speed * lev * np.ones((N, jmax0 - 1, imax0))] * 2)
     rf.write_roms(d / "f.nc", imax=imax0, jmax=jmax0, N=N, times=[0, dt * (nsteps + 1)], u=u, v=v, h=h, dx=dx,
@@ -307,10 +366,21 @@ def write_scenario(d, desc):
     for _ in range(14):
         def coord(lo, hi, sgn):
             r = rng.random()
+            if exact:      # cell centres 1, 2, 3 ... cells from the limit of the velocity domain (lo - 1/2, hi + 1/2)
+                m = int(rng.integers(1, 5))
+                inside = list(range(math.ceil(lo + 0.001), math.floor(hi - 0.001) + 1))   # released inside the valid region
+                if sgn > 0 and r < 0.8 and round(hi + 0.5) - m in inside:
+                    return float(round(hi + 0.5) - m)
+                if sgn < 0 and r < 0.8 and round(lo - 0.5) + m in inside:
+                    return float(round(lo - 0.5) + m)
+                return float(inside[int(rng.integers(len(inside)))])
+            reach = float(rng.choice([0.001, 0.05, 0.3, 0.7, 1.2, 2.0]))
+            if desc.get("f32"):      # still inside after the first (float64) step, within reach afterwards
+                reach += desc["speed"] * int(rng.integers(0, 3))
             if sgn > 0 and r < 0.7:
-                return hi - float(rng.choice([0.001, 0.05, 0.3, 0.7, 1.2, 2.0]))
+                return max(hi - reach, lo + 0.001)
             if sgn < 0 and r < 0.7:
-                return lo + float(rng.choice([0.001, 0.05, 0.3, 0.7, 1.2, 2.0]))
+                return min(lo + reach, hi - 0.001)
             return float(rng.uniform(lo + 0.001, hi - 0.001))
         X, Y = coord(xlo, xhi, dxs), coord(ylo, yhi, dys)
         hh = float(h[round(Y), round(X)])
@@ -324,17 +394,35 @@ def write_scenario(d, desc):
     conf["forcing"]["extra_forcing"] = ["temp"]
     if desc.get("diffusion"):
         conf["tracker"]["diffusion"] = 50.0
-    return conf, {"sub": sub, "shape": (imax0, jmax0, N), "rows": rows}
+    return conf, {"sub": sub, "g": g, "shape": (imax0, jmax0, N), "rows": rows}
+
+
+def run_scenario(conf, desc):
+    """the loop of ladim.main on the configuration; with "f32" the state's positions are cast to float32 after
+    every step (a warm start from an output file with f4 positions assigns such arrays)"""
+    import run_ladim as rl
+
+    def cast(model, k):
+        st = model.state
+        st.variables["X"] = st.X.astype("f4")
+        st.variables["Y"] = st.Y.astype("f4")
+
+    return rl.run_conf(conf, per_step=cast if desc.get("f32") else None)
 
 
 def eval_sim(desc, ctx):
-    from ladim import ROMS
-    import run_ladim as rl
+    from ladim import ROMS, tracker
 
     d = ctx.subdir(f"c17_{desc['seed']}")
     conf, info = write_scenario(d, desc)
     calls = []          # (kind, shape, x, y, k, triples, ok)
-    tri0, z2s0 = ROMS.trilinear, ROMS.z2s_kernel
+    clips = []          # (limits, before, after)
+    tri0, z2s0, clip0 = ROMS.trilinear, ROMS.z2s_kernel, tracker.clip
+
+    def rec_clip(X, Y, xmin, xmax, ymin, ymax):
+        bx, by = [float(v) for v in X], [float(v) for v in Y]
+        clip0(X, Y, xmin, xmax, ymin, ymax)
+        clips.append(((float(xmin), float(xmax), float(ymin), float(ymax)), bx, by, [float(v) for v in X], [float(v) for v in Y]))
 
     def rec_tri(F, X, Y, K, A):
         X, Y, K = np.array(X, dtype=float), np.array(Y, dtype=float), np.array(K)
@@ -367,24 +455,40 @@ def eval_sim(desc, ctx):
         return Kout, Aout
 
     crash = None
-    with patched(trilinear=rec_tri, z2s_kernel=rec_z2s):
-        try:
-            rl.run_conf(conf)
-        except BaseException as e:  # noqa: BLE001
-            crash = f"{type(e).__name__}: {e}"
+    tracker.clip = rec_clip
+    try:
+        with patched(trilinear=rec_tri, z2s_kernel=rec_z2s):
+            try:
+                run_scenario(conf, desc)
+            except BaseException as e:  # noqa: BLE001
+                crash = f"{type(e).__name__}: {e}"
+    finally:
+        tracker.clip = clip0
     for f in d.glob("*"):
         try:
             f.unlink()
         except OSError:
             pass
-    where = f"advection={desc['adv']} flow {desc['speed']} cells/step direction {DIRS[desc['dir']]} subgrid={info['sub']} grid={info['shape']}"
+    where = (f"advection={desc['adv']} flow {desc['speed']} cells/step direction {DIRS[desc['dir']]} subgrid={info['sub']} grid={info['shape']}"
+             + (" float32 state positions" if desc.get("f32") else "") + (" integer positions" if desc.get("exact") else ""))
     oracle = None
+    # clipped stage positions must stay where i+1, j+1 are inside the arrays: xmin <= x < xmax (strictly below)
+    g = info["g"]
+    gx0, gx1, gy0, gy1 = float(g[0]), float(g[1] - 1), float(g[2]), float(g[3] - 1)
+    badclip = None
+    for lim, bx, by, ax, ay in clips:
+        for n in range(len(bx)):
+            if not (gx0 <= ax[n] < gx1 and gy0 <= ay[n] < gy1):
+                badclip = badclip or (f"clipped stage position ({ax[n]}, {ay[n]}) (unclipped ({bx[n]}, {by[n]})) is not inside the velocity domain "
+                                      f"{gx0} <= x < {gx1}, {gy0} <= y < {gy1}")
     bad = [c for c in calls if not c[6]]
     if bad:
         kind, shape, x, y, k, tr, _ = bad[0]
         worst = [t for t in tr if outside(shape if kind == "tri" else (1,) + shape[1:], t)]
         oracle = (f"{'trilinear' if kind == 'tri' else 'z2s_kernel'} read outside its array of shape {shape} at kernel position x={x} y={y} k={k}"
                   f" (index {worst[0] if worst else 'beyond the extent (IndexError)'}): {where}")
+    elif badclip:
+        oracle = f"{badclip}: {where}"
     elif crash:
         oracle = f"simulation crashed: {crash}: {where}"
     # Coq cases: a sample of the calls, the ones at the array edges first
@@ -398,13 +502,19 @@ def eval_sim(desc, ctx):
             ints.append([1, shape[0], shape[1], shape[2]] + fl(x) + fl(y) + [k, ok] + [v for t in tr for v in t])
         else:
             ints.append([3, shape[1], shape[2]] + fl(x) + fl(y) + [ok] + ([tr[0][1], tr[0][2]] if tr else []))
+    for lim, bx, by, ax, ay in clips[:6]:
+        c5 = [5, 1, g[0], g[1], g[2], g[3]] + fl(lim[0]) + fl(lim[1]) + fl(lim[2]) + fl(lim[3]) + [len(bx)]
+        for n in range(len(bx)):
+            c5 += fl(bx[n]) + fl(by[n]) + fl(ax[n]) + fl(ay[n])
+        ints.append(c5)
     # a stage position was clipped if a kernel position sits exactly on the box edge (local 0.01 / ext - 1.01)
     def onbox(v):
         return any(abs((v % 1) - f) < 1e-9 for f in (0.51, 0.01, 0.49, 0.99))
     clipped = any(c[0] == "tri" and (onbox(c[2]) or onbox(c[3])) for c in calls)
     return {"ints": ints or None, "oracle": oracle, "nontrivial": ("sim", desc["seed"]) if clipped else None,
-            "kind": f"sim-{desc['adv']}" + ("-diffusion" if desc.get("diffusion") else ""),
-            "observed": {"kernel_calls": len(calls), "outside": len(bad), "crash": crash, "subgrid": info["sub"], "clipped": clipped}}
+            "kind": f"sim-{desc['adv']}" + ("-diffusion" if desc.get("diffusion") else "") + ("-float32" if desc.get("f32") else "")
+                    + ("-integer" if desc.get("exact") else ""),
+            "observed": {"kernel_calls": len(calls), "outside": len(bad), "clip_calls": len(clips), "crash": crash, "subgrid": info["sub"], "clipped": clipped}}
 
 
 BOUNDSCHECK_SCRIPT = r"""
@@ -423,7 +533,7 @@ for desc in json.loads(Path(sys.argv[4]).read_text()):
     d = ctx.subdir(f"bc_{desc['seed']}")
     conf, info = c17.write_scenario(d, desc)
     try:
-        rl.run_conf(conf)
+        c17.run_scenario(conf, desc)
         out.append({"seed": desc["seed"], "result": "ok"})
     except IndexError as e:
         out.append({"seed": desc["seed"], "result": "IndexError: " + str(e)[:200], "sub": info["sub"]})
@@ -471,6 +581,8 @@ def eval_case(desc, ctx):
         return eval_z2s(desc)
     if k == "near":
         return eval_near(desc)
+    if k == "clip":
+        return eval_clip(desc)
     if k == "sim":
         return eval_sim(desc, ctx)
     return eval_boundscheck(desc, ctx)
